@@ -18,3 +18,30 @@ def notrace_hash(*classes):
                 return _orig(self)
         __hash__._verif_notrace = True
         cls.__hash__ = __hash__
+
+
+def apply_pytato_stubs():
+    """Semantically identical re-statements of pytato helpers that CrossHair
+    cannot trace.  (Listed as stubs in every evidence file.)
+
+    * ``InductionVariableCollector.combine`` uses ``reduce(frozenset.union, ...)``;
+      under tracing ``frozenset(...)`` builds CrossHair's ``LinearSet``, on which
+      the unbound C descriptor ``frozenset.union`` raises TypeError.  Restated
+      with the ``|`` operator.
+    """
+    import pytato.scalar_expr as se
+    if getattr(se.InductionVariableCollector.combine, "_verif_stub", False):
+        return
+
+    def combine(self, values):
+        res = frozenset()
+        for v in values:
+            res = res | v
+        return res
+    combine._verif_stub = True
+    se.InductionVariableCollector.combine = combine
+
+
+STUBS = ["crosshair.core.consider_shortcircuit: never short-circuit (always execute the real callee)",
+         "pytato.scalar_expr.InductionVariableCollector.combine: reduce(frozenset.union, ...) restated with '|' "
+         "(CrossHair's LinearSet is not accepted by the unbound C descriptor)"]
